@@ -18,7 +18,7 @@
        nor sleep forever.
    C02_partial: not proved: that the real select loops schedule a clean round within a bounded TIME
    (composition of the timers of both programs with the network), the server's send-real-soon
-   sweep and lazy-mode hold, the downstream recovery from an arbitrary state, and the re-synchronisation
+   sweep and lazy-mode hold, and the re-synchronisation
    when the receiver is 5..8 packets behind (the logic then loses up to 4 leading packets: the
    "recent seqno" window; measured by the oracle as RESYNC_LOSS).  Those parts are decided by the
    correspondence of Client.v/Server.v/Tunnel.v with the C code plus the exactly-once / bounded-time
@@ -53,6 +53,15 @@ Theorem C02_upstream_recovery_partial :
      (outs' = outs \/ outs' = outs ++ [seq_tags (sk (snd_ s)) (sn (snd_ s))]).
 Proof. exact clean_recovery. Qed.
 Print Assumptions C02_upstream_recovery_partial.
+
+Theorem C02_downstream_recovery_partial :
+  forall s outs,
+  dreach s outs -> dact (dsnd s) = true -> dk (dsnd s) <= cR (drcv s) + 4 ->
+  exists s' outs', dclean_rounds (dn (dsnd s) - df (dsnd s)) s outs = Some (s', outs') /\ DInv s' /\
+     dact (dsnd s') = false /\ dk (dsnd s') = dk (dsnd s) /\ cR (drcv s') = dk (dsnd s) /\
+     (outs' = outs \/ outs' = outs ++ [seq_tags (dk (dsnd s)) (dn (dsnd s))]).
+Proof. exact dclean_recovery. Qed.
+Print Assumptions C02_downstream_recovery_partial.
 
 (* the premises are met by the initial state and by every state the exactly-once theorem ends in *)
 Example C02_nonvacuous :
